@@ -88,6 +88,16 @@ def cases(tier):
             if "frac" in entered and "abc" not in entered:
                 continue
             yield dict(withj=False, fam=list(fam), entered=entered, data="ok", yf=1.0, scale="big")
+            # the 1e-6 tolerance is absolute: small inconsistencies / implied negative compartments in a very large population
+            for data in ("neg1e-3", "neg1", "off1e-5", "off1"):
+                if data == "off1e-5" and len(entered) <= 3:
+                    continue
+                yield dict(withj=False, fam=list(fam), entered=entered, data=data, yf=1.0, scale="big")
+    # other routes to an integrated model: built model pickled / deep-copied and the copy integrated; every quantity read before integration
+    for fam in fams:
+        for via in ("pickle", "deepcopy", "read_first"):
+            for withj in (False, True):
+                yield dict(withj=withj, fam=list(fam), entered=["a", "b", "c"] + [f for f in fam if f != "frac" or "abc" in fam], data="ok", yf=1.0, via=via)
     # several population types: a second type (compartments x, y, characteristic xy) in its own population
     for fam in fams[:8]:
         for entered in (["a", "b", "c"], ["abc"] if "abc" in fam else ["a"], ["a", "b", "c"] + [f for f in fam if f != "frac"]):
@@ -188,6 +198,8 @@ def make_spec(case):
         spec["pars"].append(dict(name="r3", fmt="rate", val=0.5, ptype="tb"))
         spec["links"].append(["x", "y", "r3"])
     spec["_vals2"] = vals2
+    if case.get("via"):
+        spec["via"] = case["via"]
     if case["withj"]:
         spec["comps"].append(dict(name="j", kind="junc", init=10.0))
         spec["pars"] += [dict(name="tj", fmt="rate", val=0.2), dict(name="qa", fmt="proportion", val=0.3), dict(name="qb", fmt="proportion", val=0.7)]
